@@ -185,3 +185,28 @@ fn convert_error(e: std::fmt::Error) -> SchemaError {
 		e,
 	))
 }
+
+/// Verification hooks (add-only, compiled out unless `--cfg ten0_serde_avro_fast_verif`)
+#[cfg(ten0_serde_avro_fast_verif)]
+#[doc(hidden)]
+pub mod verif {
+	use super::*;
+
+	/// The Parsing Canonical Form as text, produced by the very writer that
+	/// feeds the fingerprint
+	pub fn canonical_form(schema: &SchemaMut) -> Result<String, SchemaError> {
+		let mut state = WriteCanonicalFormState {
+			w: ErrorConversionWriter(String::new()),
+			named_type_written: vec![false; schema.nodes.len()],
+		};
+		state.write_canonical_form(schema, SchemaKey::from_idx(0))?;
+		Ok(state.w.0)
+	}
+
+	/// The checksum used for fingerprints, on arbitrary bytes
+	pub fn rabin(data: &[u8]) -> [u8; 8] {
+		let mut r = Rabin::default();
+		r.write(data);
+		r.finish()
+	}
+}
